@@ -52,6 +52,12 @@ Example C06_axes_example :
   valid_axis 4 (-2) /\ compose_perm [2; 0; 1; 3] [2; 0; 1; 3] <> seq 0 4.
 Proof. vm_compute. repeat split; try reflexivity; try discriminate. Qed.
 
+(* nn.remat_scan(lengths): the nested scans over a stack of layers of shape `lengths` are the loop over prod(lengths)
+   layers in row-major order, for every nesting depth and every layer function *)
+Theorem C06_remat_scan_is_loop : forall C W (layer : C -> W -> C) t c, nscan C W layer c t = fold_left layer (nflatten W t) c.
+Proof. exact @nested_scan_is_loop. Qed.
+Print Assumptions C06_remat_scan_is_loop.
+
 Example C06_broadcast_write_refuted :
   let sa := [(NEllipsis, SNone)] in
   let vs := [mkVar (mkLeaf [] [] None 0) (Whole [4%Z])] in
